@@ -178,10 +178,12 @@ pub(crate) fn days_to_wday(days: i32, monday_first: bool) -> u32 {
 }
 
 /// Get a list of specific weekdays in a month
-pub(crate) fn weekdays_in_month(year: i32, month: u32, weekday: u8) -> Vec<u32> {
-    let (_, days) = year_month_to_doy(year, month).unwrap();
+/// Returns `None` if the month is invalid or not completely inside the valid date range
+pub(crate) fn weekdays_in_month(year: i32, month: u32, weekday: u8) -> Option<Vec<u32>> {
+    let (_, days) = year_month_to_doy(year, month).ok()?;
 
-    let start_days = date_to_days(year, month, 1).unwrap();
+    let start_days = date_to_days(year, month, 1).ok()?;
+    date_to_days(year, month, days).ok()?;
 
     let mut weekday_index = 0;
     for index in 0..=6 {
@@ -201,7 +203,7 @@ pub(crate) fn weekdays_in_month(year: i32, month: u32, weekday: u8) -> Vec<u32> 
         }
     }
 
-    weekdays
+    Some(weekdays)
 }
 
 /// Converts days to week of year
